@@ -14,7 +14,7 @@ pub fn c02_wday_monday_first_holds(d: i32) {
     assert!(days_to_wday(d, false) as i64 == spec_weekday(d as i64));
 }
 pub fn c02_datetime_weekday_holds(d: i32, n: u64, off: i32) {
-    assume(n < NPD as u64 && valid_off(off));
+    assume(n < NPD as u64); assume(off > -86_400); assume(off < 86_400);
     assume(in_range(local(d, n, off)));
     assert!(dt(d, n, off).weekday() as i64 == spec_weekday(local_day(d, n, off)));
 }
@@ -26,7 +26,7 @@ pub fn c02_day_of_year_holds(d: i32) {
 /// DateTime getters read the local day: same argument to the same calendar function as the Date getter
 /// (the calendar function itself is decided for every day above; here it is uninterpreted)
 pub fn c02_datetime_day_of_year_holds(d: i32, n: u64, off: i32) {
-    assume(n < NPD as u64 && valid_off(off));
+    assume(n < NPD as u64); assume(off > -86_400); assume(off < 86_400);
     assume(in_range(local(d, n, off)));
     let ld = local_day(d, n, off);
     assert!(dt(d, n, off).day_of_year() == Date { days: ld as i32 }.day_of_year());
@@ -71,20 +71,20 @@ pub fn c02_d2d_period_holds(d: i32) {
 /// by definition of the quantification over consistent tuples, the second by c02_d2d_period_holds.
 pub fn c02_wyear_period_holds(d: i32, y: i32, m: u32, dd: u32) {
     assume(d <= i32::MAX - 146_097);
-    assume(y >= -5_879_612 && y <= 5_879_612 - 400 && spec_valid(y, m, dd) && spec_rd(y, m, dd) == d as i64);
+    assume(y >= -5_879_612); assume(y <= 5_879_612 - 400); assume(spec_valid(y, m, dd)); assume(spec_rd(y, m, dd) == d as i64);
     bind_days_to_date(d, y, m, dd);
     bind_days_to_date(d + 146_097, shift400(y) as i32, m, dd);
     assert!(days_to_wyear(d + 146_097) == days_to_wyear(d));
 }
 /// base cycle: the library's week number is the ISO week for every date of the years 2000..=2399
 pub fn c02_wyear_base_holds(d: i32, y: i32, m: u32, dd: u32) {
-    assume(y >= 2000 && y <= 2399 && spec_valid(y, m, dd) && spec_rd(y, m, dd) == d as i64);
+    assume(y >= 2000); assume(y <= 2399); assume(spec_valid(y, m, dd)); assume(spec_rd(y, m, dd) == d as i64);
     bind_days_to_date(d, y, m, dd);
     assert!(days_to_wyear(d) as i64 == spec_iso_week(y, m, dd));
 }
 /// so is the oracle
 pub fn c02_spec_week_period_holds(y: i32, m: u32, d: u32) {
-    assume(y >= -5_879_613 && y <= 5_879_613 - 400);
+    assume(y >= -5_879_613); assume(y <= 5_879_613 - 400);
     assume(spec_valid(y, m, d));
     let y2 = shift400(y) as i32;
     assert!(spec_valid(y2, m, d));
